@@ -49,7 +49,7 @@ def plan(tier, seed):
 def floors(tier):
     return {"distinct_nontrivial": 200, "unwind.close": 200, "unwind.exc": 50, "op:full": 500, "op:take": 100,
             "op:abandon": 100, "op:drop": 100, "op:boom_raised": 50, "op:the": 50, "cls:dup_domain": 50,
-            "cls:caching_off": 100, "cache.check.hit": 500, "cls:ruletree_history": 100, "cls:shared_expression_pool": 60, "cls:twin:nexttree": 30, "cls:twin:kwvar": 30, "cls:twin:concat": 25, "cls:twin:flatsub": 25, "cls:twin:sharedconc": 25}
+            "cls:caching_off": 100, "cache.check.hit": 500, "cls:ruletree_history": 100, "cls:shared_expression_pool": 60, "cls:twin:nexttree": 30, "cls:twin:kwvar": 30, "cls:variable_whose_domain_has_no_instance": 60, "cls:twin:concat": 25, "cls:twin:flatsub": 25, "cls:twin:sharedconc": 25}
 
 
 def cases(spec, ctx):
@@ -128,8 +128,15 @@ def cases(spec, ctx):
             else:
                 ops.append([kind, qi])
         dup = rng.random() < 0.25
+        no_instance = rng.randrange(nv) if (not dup and rng.random() < 0.08) else None
+        if no_instance is not None:
+            # (and-only conditions: a disjunction whose other alternative does not mention the empty variable is DESIGN 9.5)
+            for p_ in pool:
+                p_["cond"] = ["and", ["cmp", ">=", ["v", no_instance, [["a", "a"]]], ["lit", 0]], ["cmp", ">", ["v", p_["sel"][0], [["a", "b"]]], ["lit", rng.randint(0, 2)]]]
+                p_["fault"] = False
+            ops = [o if o[0] != "boom" else ["take", o[1], 1] for o in ops]
         yield {"world": world, "kinds": kinds, "pool": pool, "ops": ops, "caching": rng.random() < 0.65,
-               "dup": [rng.randrange(4), rng.randrange(4)] if dup else None}
+               "dup": [rng.randrange(4), rng.randrange(4)] if dup else None, "no_instance": no_instance}
 
 
 def _doms(case, world):
@@ -142,6 +149,10 @@ def _doms(case, world):
             objs.append(objs[case["dup"][0 if k == "P" else 1] % len(objs)])
             per_kind[k] = objs
         doms = [per_kind[k] for k in case["kinds"]]
+    if case.get("no_instance") is not None:
+        # one variable's given domain holds no object of its type (objects of that type exist elsewhere in the process)
+        i = case["no_instance"]
+        doms[i] = list(world["Q" if case["kinds"][i] == "P" else "P"])
     return doms
 
 
@@ -171,6 +182,8 @@ def run_history(case, world, caching):
             import itertools
             # oracle over the distinct objects (a duplicate listing does not create new assignments)
             for asg in itertools.product(*[list(world[k]) for k in kinds]):
+                if case.get("no_instance") is not None and (case["no_instance"] in p["sel"] or case["no_instance"] in C.mentioned(p["cond"])):
+                    break       # a query that involves the variable without values has no rows, on every evaluation
                 if C.holds(p["cond"], asg):
                     rows.append(tuple(m[id(asg[i])] for i in p["sel"]))
             exp.append((rows, multi.all_selected(cc)))
@@ -435,6 +448,11 @@ def check_twin_case(case, ctx):
         want = Counter(enc(o) for o in build().evaluate())      # the answer: a fresh query evaluated once
         q = build()
         for step, op in enumerate(list(case["ops"]) + [["full", 0], ["full", 0]]):
+            if step % 3 == 1:
+                # switching the result cache off and on in the middle of a history changes no answer
+                disable_caching()
+                (enable_caching if case["caching"] else disable_caching)()
+                log.append(["toggle_caching"])
             if op[0] == "full":
                 got = Counter(enc(o) for o in q.evaluate())
                 log.append(["full", sum(got.values())])
@@ -456,6 +474,13 @@ def check_twin_case(case, ctx):
                 else:
                     del it
                     gc.collect()
+        if case["twin"] in ("kwvar", "nexttree"):
+            # a query built now, after all of that, answers like the one built at the beginning
+            late = Counter(enc(o) for o in build().evaluate())
+            if late != want:
+                ctx.fail("FRESH_QUERY_AT_THE_END_DIFFERS", {"history_log": log, "missing": list((want - late).elements())[:6],
+                                                            "extra": list((late - want).elements())[:6], "shape": case["twin"]})
+                return
         if _USER_LISTS:
             pars, snap = _USER_LISTS
             changed = [i for i, (p_, l_) in enumerate(zip(pars, snap)) if len(p_.items) != len(l_) or any(a is not b for a, b in zip(p_.items, l_))]
@@ -536,6 +561,8 @@ def check_case(case, ctx):
     ctx.cls("cls:caching_on" if case["caching"] else "cls:caching_off")
     if case.get("dup"):
         ctx.cls("cls:dup_domain")
+    if case.get("no_instance") is not None:
+        ctx.cls("cls:variable_whose_domain_has_no_instance")
     try:
         log, failures, exp = run_history(case, world, case["caching"])
     except Exception as e:
